@@ -896,6 +896,9 @@ class FunctionNormalizer(object):
                 ys = [n for n in ast.walk(loop) if isinstance(n, (ast.Yield, ast.YieldFrom))]
                 last = loop.body[-1] if loop.body else None
                 if len(ys) != 1 or not (isinstance(last, ast.Expr) and last.value is ys[0] and isinstance(ys[0], ast.Yield) and ys[0].value is not None):
+                    if self._inline_general_generator(lst, i, st, callee, body):
+                        changed = True
+                        break
                     continue
                 bound = self._bind(st.iter, callee)
                 if bound is None:
@@ -1526,13 +1529,45 @@ class FunctionNormalizer(object):
                     return False
                 if attrs and isinstance(n, ast.Attribute) and isinstance(n.ctx, (ast.Store, ast.Del)) and n.attr in attrs:
                     return False
-                if attrs and isinstance(n, ast.Call) and not is_pure(n):
+                if attrs and isinstance(n, ast.Call) and not is_pure(n) and not self._never_rebound(attrs):
                     return False       # an attribute read by the sequence could be re-bound by a call in the body
         targets = names_stored(t)
         if targets & read:
             return False
         # the loop variables must not be read after the loop (they keep their last value either way, which is the same)
         return True
+
+    def _never_rebound(self, attrs):
+        '''none of the attribute names is ever the target of an attribute store / setattr in the analysed modules (methods)'''
+        owner = getattr(self, 'owner', None)
+        mods = getattr(owner, 'modules', None) or {}
+        if not mods:
+            return False
+        cache = getattr(owner, '_stored_attrs', None)
+        if cache is None:
+            cache = set()
+            dynamic = False
+            for m in mods.values():
+                for n in ast.walk(m.tree):
+                    if isinstance(n, ast.Attribute) and isinstance(n.ctx, (ast.Store, ast.Del)):
+                        cache.add(n.attr)
+                    elif isinstance(n, ast.Call) and isinstance(n.func, ast.Name) and n.func.id in ('setattr', 'delattr'):
+                        if len(n.args) >= 2 and isinstance(n.args[1], ast.Constant):
+                            cache.add(n.args[1].value)
+                        else:
+                            dynamic = True
+            owner._stored_attrs = cache
+            owner._dynamic_setattr = dynamic
+        methods = getattr(owner, '_method_names', None)
+        if methods is None:
+            methods = set()
+            for m in mods.values():
+                for n in ast.walk(m.tree):
+                    if isinstance(n, ast.ClassDef):
+                        methods |= {x.name for x in n.body if isinstance(x, ast.FunctionDef)}
+            owner._method_names = methods
+        # names of methods: a dynamic setattr(obj, computed_name, ..) in this code base installs data attributes, not methods
+        return all(a in methods and a not in cache for a in attrs)
 
     _BUILTIN_EXC = {'KeyError': 'LookupError', 'IndexError': 'LookupError', 'LookupError': 'Exception', 'ValueError': 'Exception',
                     'TypeError': 'Exception', 'AttributeError': 'Exception', 'StopIteration': 'Exception', 'OSError': 'Exception',
@@ -1651,6 +1686,24 @@ class FunctionNormalizer(object):
                     nm = st.body[0].targets[0].id
                     lst[i] = at(ast.Assign(targets=[ast.Name(id=nm, ctx=ast.Store())],
                                            value=ast.IfExp(test=st.test, body=st.body[0].value, orelse=st.orelse[0].value)), st)
+                    continue
+                # for T in (E for v in X if c): BODY   ->   for v in X: if c: T = E; BODY      (a generator expression is consumed lazily,
+                # element by element, so the interleaving is the same)
+                if isinstance(st, ast.For) and isinstance(st.iter, ast.GeneratorExp) and len(st.iter.generators) == 1 and not st.orelse and \
+                        not st.iter.generators[0].is_async and not (names_stored(st.iter.generators[0].target) & names_stored(st.target)):
+                    g = st.iter.generators[0]
+                    inner = [at(ast.Assign(targets=[st.target], value=st.iter.elt), st)] + st.body
+                    if isinstance(st.target, ast.Name) and isinstance(st.iter.elt, ast.Name) and isinstance(g.target, ast.Name) and \
+                            st.iter.elt.id == g.target.id:
+                        # (v for v in X if c): the loop variable itself
+                        inner = [_Rename({g.target.id: st.target.id}).visit(x) for x in st.body]
+                        g_target = ast.Name(id=st.target.id, ctx=ast.Store())
+                        conds = [_Rename({g.target.id: st.target.id}).visit(c) for c in g.ifs]
+                    else:
+                        g_target, conds = g.target, list(g.ifs)
+                    if conds:
+                        inner = [at(ast.If(test=mk_bool(ast.And(), conds, st), body=inner, orelse=[]), st)]
+                    lst[i] = at(ast.For(target=g_target, iter=g.iter, body=inner, orelse=[]), st)
                     continue
                 # for v in (a, b, c): BODY   ->   v = a; BODY; v = b; BODY; v = c; BODY     (a literal sequence of plain names / constants)
                 if isinstance(st, ast.For) and isinstance(st.iter, (ast.Tuple, ast.List)) and not st.orelse and 1 <= len(st.iter.elts) <= 6 and \
